@@ -1,10 +1,10 @@
 (** C16 -- Arc moves are sampled faithfully.  All theorems are about the planArc / computeArcCenterOffsets definitions
-    GENERATED from /repo on this run (Gen/GenArc.v), for all real inputs.
-    Not yet proved in Coq (decided numerically by the oracle of this check on the implementation): that the end point
-    itself sits at angle start + sweep when it lies on the circle, hence the step from the last sample to the end point and
-    the `cover` consequence for the final segment. *)
+    GENERATED from /repo on this run (Gen/GenArc.v), for all real inputs: closed form, points on the circle, start point,
+    direction and sweep range, segment count, spacing <= 1 between consecutive samples, and -- when the commanded end point
+    lies on the circle -- the end point IS the sample numbered N (angle start + sweep), so the final segment is no longer
+    than the others.  The radius form's centre is proved for axis-aligned chords and refuted otherwise (finding D7). *)
 From Coq Require Import Reals ZArith List Bool.
-From ER Require Import Base.GenPrelude Gen.GenArc Proofs.ArcGen.
+From ER Require Import Base.Num Base.GenPrelude Gen.GenArc Proofs.ArcGen Proofs.ArcEnd.
 Import ListNotations.
 Open Scope R_scope.
 
@@ -39,6 +39,24 @@ Theorem C16_spacing : forall posX posY endX endY i j cw k,
   hypot (ax - bx) (ay - by_) <= 1.
 Proof. exact arc_spacing. Qed.
 
+(** the end point, when it lies on the circle, is the point at angle start + sweep, i.e. the sample numbered N *)
+Theorem C16_end_on_circle : forall posX posY endX endY i j cw, (i <> 0 \/ j <> 0) ->
+  hypot (endX - (posX + i)) (endY - (posY + j)) = hypot i j ->
+  posX + i + cos (atan2 (- j) (- i) + arc_sweep posX posY endX endY i j cw) * hypot i j = endX /\
+  posY + j + sin (atan2 (- j) (- i) + arc_sweep posX posY endX endY i j cw) * hypot i j = endY.
+Proof. exact arc_end_on_circle. Qed.
+Theorem C16_last_point : forall posX posY endX endY i j cw, (i <> 0 \/ j <> 0) ->
+  hypot (endX - (posX + i)) (endY - (posY + j)) = hypot i j ->
+  arc_point posX posY endX endY i j cw (Z.to_nat (arc_segments posX posY endX endY i j cw)) = (endX, endY).
+Proof. exact arc_last_point. Qed.
+(** ... so the step from the last intermediate sample to the commanded end point is at most one unit too *)
+Theorem C16_final_spacing : forall posX posY endX endY i j cw, (i <> 0 \/ j <> 0) ->
+  hypot (endX - (posX + i)) (endY - (posY + j)) = hypot i j ->
+  let n := Z.to_nat (arc_segments posX posY endX endY i j cw) in
+  let '(ax, ay) := arc_point posX posY endX endY i j cw (pred n) in
+  hypot (ax - endX) (ay - endY) <= 1.
+Proof. exact arc_final_spacing. Qed.
+
 (** radius form: proved for axis-aligned chords ... *)
 Theorem C16_radius_centre_partial : forall posX posY endX endY radius cw,
   radius <> 0 -> (posX <> endX \/ posY <> endY) -> (endX - posX) * (endY - posY) = 0 ->
@@ -61,5 +79,8 @@ Print Assumptions C16_start_point.
 Print Assumptions C16_direction.
 Print Assumptions C16_segments.
 Print Assumptions C16_spacing.
+Print Assumptions C16_end_on_circle.
+Print Assumptions C16_last_point.
+Print Assumptions C16_final_spacing.
 Print Assumptions C16_radius_centre_partial.
 Print Assumptions C16_radius_centre_refuted.
